@@ -17,7 +17,7 @@ RULE = ('fault enumeration over valid transcripts T1 minimal, T2 host-key probes
         'DEBUG/IGNORE interleavings, 0-5 pre-banner lines, 1-byte segmentation and two-segment splits, seeded random byte mutations.  Each case is one real audit with -t 1 under the socket monitor.  Oracle: status in {0,1,2,3} and no traceback; '
         'every blocking receive ran under the configured finite timeout, timeouts <= 4 x connections, CPU <= 5 s + 0.5 s x connections; if the first connection carried a valid banner and a strictly decodable KEXINIT the report is complete '
         '(names equal the KEXINIT), otherwise status 1 and no algorithm lines.  Non-trivial: the fault was applied (peer log) and the monitor saw >= 1 receive; distinct = distinct (transcript, connection, message, operator, parameters)')
-REQUIRED = {'rate_check_runs': 5, 'faults_applied': 300, 'recv_events': 2000, 'expected_report': 100, 'expected_error': 100, 'stall_cases': 10, 'probe_phase_faults': 100}
+REQUIRED = {'default_timeout_runs': 4, 'rate_check_runs': 5, 'faults_applied': 300, 'recv_events': 2000, 'expected_report': 100, 'expected_error': 100, 'stall_cases': 10, 'probe_phase_faults': 100}
 ASSUMPTIONS = ['"terminates" is decided as bounded progress on logical measures (timeouts in force, number of timed-out receives, CPU), never on wall-clock; a watchdog expiry without a deterministic hang signature is inconclusive',
                'well-formed first connection = identification line ending in LF, then zero or more well-framed DEBUG/IGNORE packets, then a well-framed packet of type 20 that the strict decoder accepts (exact trailer)',
                'moduli and keys in generated replies are at most 16384 bits']
@@ -88,6 +88,9 @@ def cases(tier, seed):
     for beh in RATE_BEHAVIOURS:
         for rep_ in range(1 if tier == 'quick' else 4):
             cs.append({'T': 'T7', 'op': 'rate', 'beh': beh, 'after': [0, 1, 3, 10][rep_]})
+    # the documented default timeout (5 s) when -t is not given: client audit and server audit against a peer that says nothing / stops after its banner
+    for T, op, at in (('T6', 'stall_before', 'banner'), ('T6', 'stall_before', 'kexinit'), ('T1', 'stall_before', 'banner'), ('T1', 'stall_before', 'kexinit')):
+        cs.append({'T': T, 'op': op, 'conn': 0, 'at': at, 'default_timeout': True})
     # T8: one of the three host-key probes (or a group-exchange probe) goes wrong, the others and the group-exchange phase follow
     cs.append({'T': 'T8', 'op': 'none'})
     for conn in (1, 2, 3):
@@ -376,18 +379,20 @@ def run_case(c):
     if T == 'T6':
         port = audit.free_port()
         cp = peermod.ClientPeer(s, port)
-        r = runner.run_cli(['-c', '-p', str(port), '-t', '2', '-n'] + list(c.get('opts', [])), timeout=90, monitors=mon)
+        r = runner.run_cli(['-c', '-p', str(port), '-n'] + ([] if c.get('default_timeout') else ['-t', '2']) + list(c.get('opts', [])), timeout=40 if c.get('default_timeout') else 90, monitors=mon)
         cp.stop()
         p = cp
         if 'failed to listen' in r.err:
             return {'verdict': 'inconclusive', 'why': 'port taken'}
         if cp.count('connected') == 0:
             return {'verdict': 'inconclusive', 'why': 'client peer never connected'}
-        tmo = 2.0
+        tmo = 5.0 if c.get('default_timeout') else 2.0
     else:
-        r, p = audit.audit_server(s, ['-n', '-t', '1'] + list(c.get('opts', [])), monitors=mon, timeout=120)
-        tmo = 1.0
+        r, p = audit.audit_server(s, ['-n'] + ([] if c.get('default_timeout') else ['-t', '1']) + list(c.get('opts', [])), monitors=mon, timeout=40 if c.get('default_timeout') else 120)
+        tmo = 5.0 if c.get('default_timeout') else 1.0
     viol, counters = [], {}
+    if c.get('default_timeout'):
+        counters['default_timeout_runs'] = 1
     applied = p.count('fault') > 0 or c['op'] in ('none', 'pre', 'segment')
     counters['faults_applied'] = 1 if p.count('fault') > 0 else 0
     recvs = r.mon('recv')
